@@ -1,4 +1,7 @@
 use bytes::Bytes;
+#[cfg(all(target_os = "linux", feoxdb_verif))]
+use crate::verif::uring::{opcode, types, IoUring, Probe};
+#[cfg(not(feoxdb_verif))]
 #[cfg(target_os = "linux")]
 use io_uring::{opcode, types, IoUring, Probe};
 #[cfg(any(target_os = "linux", test))]
@@ -279,8 +282,11 @@ impl DiskIO {
 
             #[cfg(feoxdb_verif)]
             if let Some(sim) = crate::verif::device_for(file.as_ref()) {
+                // a simulated device may come with a simulated ring (and O_DIRECT behaviour)
+                let ring = IoUring::attach(sim.ring());
+                let direct = ring.as_ref().is_some_and(|ring| ring.direct_io());
                 return Ok(Self {
-                    ring: None,
+                    ring,
                     next_user_data: 0,
                     write_indeterminate: AtomicBool::new(false),
                     journal_generation: AtomicU64::new(0),
@@ -288,7 +294,7 @@ impl DiskIO {
                     file_identity,
                     _file: file,
                     fd,
-                    _use_direct_io: false,
+                    _use_direct_io: direct,
                     sim: Some(sim),
                 });
             }
@@ -754,6 +760,14 @@ impl DiskIO {
             let remaining = sectors - offset;
             scratch.set_len(size);
             fill_retirement_markers(scratch.as_mut_slice(), block_sector, remaining);
+
+            #[cfg(feoxdb_verif)]
+            if let Some(sim) = &self.sim {
+                sim.write(block_sector * FEOX_BLOCK_SIZE as u64, scratch.as_slice())
+                    .map_err(FeoxError::IoError)?;
+                offset += blocks;
+                continue;
+            }
 
             let written = unsafe {
                 libc::pwrite(
